@@ -147,7 +147,8 @@ func clearCaches() {
 	lockInfoCache = map[*Prog]*LockInfo{}
 	regionCache = map[*Prog]map[*ssa.Function]bool{}
 	allocNames = map[*ssa.Function]map[*ssa.Alloc]string{}
-	helperFactsMemo = map[*ssa.Function][]string{}
+	helperFactsMemo = map[*ssa.Function]*siteFacts{}
+	pureMemo = map[*ssa.Function]*string{}
 	runtime.GC()
 }
 
